@@ -595,7 +595,6 @@ type boxedArg struct {
 	box *Loc
 }
 
-
 func (e *Exec) boxCopyIn(st *State, a Val) Val {
 	l := a.Loc
 	ref := e.alloc(st)
@@ -615,10 +614,10 @@ func (e *Exec) boxCopyOut(st *State, args []Val) {
 
 // modTarget describes one resolved modifies item.
 type modTarget struct {
-	heap  string
-	ref   string // object / array / box / map ref; "" = whole map
-	lo    string // for element regions: absolute [lo,hi)
-	hi    string
+	heap string
+	ref  string // object / array / box / map ref; "" = whole map
+	lo   string // for element regions: absolute [lo,hi)
+	hi   string
 }
 
 func (e *Exec) resolveModifies(env *SpecEnv, fc *FuncContract) (targets []modTarget, all bool) {
